@@ -30,6 +30,7 @@ struct Case {
   int pre = 0;                 // 0 nothing, 1 wait(INFINITE) before destroy (reaped state; needs a child that exits), 2 wait(0) before destroy
   int state = 0;               // handle state at destroy, see run_case
   bool via_cxx = false;        // through reproc::process's destructor
+  bool failed_first = false;   // a failing start (with a different deadline and policy) precedes the real one on the same handle
   int64_t epoch = 1000000;
 };
 
@@ -110,6 +111,7 @@ Case decode(Tape &t, long sweep)
   // 0 running-or-exited (by script), 1 not started, 2 failed start, 3 child side of a fork, 4 NULL
   c.state = (int) t.weighted({ 12, 1, 2, 2, 1 });
   c.via_cxx = c.state == 0 && t.chance(1, 4);
+  c.failed_first = c.state == 0 && !c.via_cxx && t.chance(1, 4);
   // out-of-range actions in the stored policy: keep some
   return c;
 }
@@ -150,6 +152,7 @@ CaseResult run_case(Tape &t, long sweep)
                      .kv("deadline", c.deadline)
                      .kv("destroy_called_after", (long long) c.stop_after)
                      .kv("pre", c.pre)
+                     .kv("failed_start_first", c.failed_first)
                      .str();
   uint64_t h = (uint64_t) c.state * 7 + c.via_cxx;
   for (int i = 0; i < 3; i++) h = mix(h, (uint64_t) (c.act[i].action + 2) * 4 + (uint64_t) (c.act[i].timeout < 0 ? -c.act[i].timeout : c.act[i].timeout == 0 ? 0 : 3));
@@ -267,7 +270,10 @@ CaseResult run_case(Tape &t, long sweep)
       else ch.kid = w.add_kid(ch.pup.get(), ch.pid);
     }
   } else {
-    err = vt::start_puppet(w, fw::case_dir() + "/ctl", opt, ch);
+    reproc_options first = opt;
+    first.deadline = c.deadline ? 0 : 3;  // the opposite of what the real start uses
+    first.stop = { { REPROC_STOP_KILL, 0 }, { REPROC_STOP_NOOP, 0 }, { REPROC_STOP_NOOP, 0 } };
+    err = vt::start_puppet(w, fw::case_dir() + "/ctl", opt, ch, c.failed_first ? &first : nullptr);
   }
   if (!err.empty() || ch.start_result <= 0) {
     w.uninstall();
@@ -389,6 +395,7 @@ CaseResult run_case(Tape &t, long sweep)
   if (all_noop) res.cls("default-policy");
   if (c.via_cxx) res.cls("via-cxx-destructor");
   if (interrupted_wait) res.cls("destroy-after-failed-wait");
+  if (c.failed_first) res.cls("restarted-after-failed-start");
   if (c.deadline) res.cls("with-deadline");
   if (!w.trouble.empty()) {
     res.kind = CaseResult::INCONCLUSIVE;
